@@ -965,10 +965,22 @@ pub async fn serve_one(svc: &S3Service, req: http::Request<s3s::Body>, lazy_ms: 
     }
 }
 
+thread_local! {
+    static LAZY_MS: std::cell::Cell<u64> = const { std::cell::Cell::new(0) };
+}
+
+/// inside `f`, every response on this thread is read by a slow client: `ms` (virtual) milliseconds between frames
+pub fn with_lazy_reader<T>(ms: u64, f: impl FnOnce() -> T) -> T {
+    let old = LAZY_MS.with(|c| c.replace(ms));
+    let out = f();
+    LAZY_MS.with(|c| c.set(old));
+    out
+}
+
 pub fn call_raw(rt: &tokio::runtime::Runtime, svc: &S3Service, req: &RawRequest) -> CallOutcome {
     match req.build() {
         None => CallOutcome::Unbuildable,
-        Some(r) => call_http(rt, svc, r),
+        Some(r) => call_http_lazy(rt, svc, r, LAZY_MS.with(std::cell::Cell::get)),
     }
 }
 
